@@ -194,6 +194,40 @@ fn schedules(g1: &Game, g2: &Game) -> Vec<Schedule> {
                 Step::Out("bestmove".into(), 8_000),
             ],
         });
+        // ---- the input thread is the one held ---------------------------------------------
+        v.push(Schedule {
+            name: format!("main-held-after-spawn[{go}]"),
+            sched: hold("uci.go.spawned@1"),
+            held_ms: HOLD_MS,
+            steps: vec![
+                Step::Send(p1.clone()),
+                Step::Send(go.clone()),
+                Step::Evt("uci.go.spawned#1".into()),
+                Step::Send("stop".into()),
+                Step::Out("bestmove".into(), HOLD_MS + ALLOWANCE_MS + 10_000),
+                Step::Send(p2.clone()),
+                Step::Send("go depth 2".into()),
+                Step::Out("bestmove".into(), 8_000),
+                Step::Send("isready".into()),
+                Step::Out("readyok".into(), 3_000),
+            ],
+        });
+        v.push(Schedule {
+            name: format!("main-held-before-stop[{go}]"),
+            // commands: 1 = position, 2 = go, 3 = stop
+            sched: hold("uci.cmd.pre@3"),
+            held_ms: HOLD_MS,
+            steps: vec![
+                Step::Send(p1.clone()),
+                Step::Send(go.clone()),
+                Step::Evt("search.started#1".into()),
+                Step::Send("stop".into()),
+                Step::Out("bestmove".into(), HOLD_MS + ALLOWANCE_MS + 10_000),
+                Step::Send(p2.clone()),
+                Step::Send("go depth 2".into()),
+                Step::Out("bestmove".into(), 8_000),
+            ],
+        });
         // the second search is the one held: stop for go #2 arrives while thread #2 is at its entry
         v.push(Schedule {
             name: format!("second-search-stop-at-enter[{go}]"),
